@@ -395,6 +395,9 @@ func genXreq(r *rng.R, last bool) xreq {
 		case 1:
 			add(k, "https")
 			add(k, "http")
+		case 2:
+			add(k, "")
+			add(k, "later.example")
 		}
 	}
 	switch r.Intn(8) {
@@ -498,7 +501,7 @@ func runE2E(r *rng.R, tier, out string, m *meta) {
 		os.Exit(4)
 	}
 	defer rg.stop()
-	nX := 600
+	nX := 500
 	if tier == "thorough" {
 		nX = 6000
 	}
